@@ -17,8 +17,9 @@ None of these is in a listed known class (`Known.protoClasses` is empty on all o
   R2  two fields with the same number — explicitly, or a tagged field numbered `k` next to an UNtagged field at
       declaration position `k`: both are written under the same number, `fieldIndex[number]` keeps the last one, so
       the first field comes back zero and the last one holds the last record.
-  (not findings) sfixed tags on `int32/int64`, `req` tags, field number 0, zigzag on a message field: written in a
-      non-standard way (C12 findings F1 F2 F4 F5) but read back by the model's own decoder: the C03 round trip holds.
+  (not findings) `req` tags, field number 0, zigzag on a message field: written in a non-standard way (C12 findings
+      F2 F4 F5) but read back by the model's own decoder: the C03 round trip holds.  (sfixed tags on `int32/int64`,
+      formerly C12 finding F1, are repaired and now inside the universe of the theorems.)
   (model note) kinds without codec (`int8 int16 uint8 uint16`, `[]uint16`, `interface{}` …): Go panics in `codecOf`
       ("unsupported type"), the model's `marshal` is pure and returns bytes; no round-trip claim is made for them.
 -/
